@@ -94,6 +94,41 @@ pub proof fn lemma_pad(n: int)
 '''
 
 
+BIT_LEMMAS = r'''verus! {
+pub proof fn lemma_set_bit(w: u64, b: u64, c: u64)
+    requires b < 64, c < 64,
+    ensures bit_of(w | (1u64 << b), c as int) == (if c == b { true } else { bit_of(w, c as int) }),
+            bit_of(w & !(1u64 << b), c as int) == (if c == b { false } else { bit_of(w, c as int) }),
+{
+    assert((w | (1u64 << b)) & (1u64 << c) != 0 <==> (c == b || w & (1u64 << c) != 0)) by (bit_vector) requires b < 64, c < 64;
+    assert((w & !(1u64 << b)) & (1u64 << c) != 0 <==> (c != b && w & (1u64 << c) != 0)) by (bit_vector) requires b < 64, c < 64;
+}
+pub proof fn lemma_zero_bit(c: u64)
+    requires c < 64,
+    ensures !bit_of(0u64, c as int),
+{ assert(0u64 & (1u64 << c) == 0) by (bit_vector); }
+}'''
+
+
+def helpers(u):
+    """bit-addressing helpers of the dense tail under contract (shared with V-SPMAT); emitted inside `impl SparseBinaryMatrix {`"""
+    IMPL = 'impl SparseBinaryMatrix'
+    u.fn('src/sparse_matrix.rs', 'row_word_width', impl=IMPL, ret='r', requires=['self.num_dense_columns < 65536'], ensures=['r as int == rww(self.num_dense_columns as int)'])
+    u.fn('src/sparse_matrix.rs', 'left_padding_bits', impl=IMPL, ret='r', requires=['self.num_dense_columns < 65536'], ensures=['r as int == pad(self.num_dense_columns as int)', 'r < 64'])
+    u.fn('src/sparse_matrix.rs', 'word_offset', impl=IMPL, ret='r', requires=['self.num_dense_columns < 65536', 'bit < 65536'], ensures=['r as int == (pad(self.num_dense_columns as int) + bit as int) / 64'])
+    u.fn('src/sparse_matrix.rs', 'bit_position', impl=IMPL, ret='r',
+         requires=['1 <= self.num_dense_columns', 'self.num_dense_columns < 65536', 'col < 65536', 'row < 16777216'],
+         ensures=['r.0 as int == row as int * rww(self.num_dense_columns as int) + (pad(self.num_dense_columns as int) + col as int) / 64',
+                  'r.1 as int == (pad(self.num_dense_columns as int) + col as int) % 64', 'r.1 < 64'],
+         prepend='proof { lemma_pad(self.num_dense_columns as int); lemma_ceil_div_exact(self.num_dense_columns as int, 64);'
+                 ' assert(rww(self.num_dense_columns as int) <= 1024) by { lemma_div_is_ordered(self.num_dense_columns as int + 63, 65535int + 63, 64); }'
+                 ' assert(0 <= row as int * rww(self.num_dense_columns as int) <= 16777216 * 1024) by (nonlinear_arith) requires 0 <= row as int <= 16777216, 0 <= rww(self.num_dense_columns as int) <= 1024;'
+                 ' lemma_div_pos_is_pos(pad(self.num_dense_columns as int) + col as int, 64); lemma_div_is_ordered_by_denominator(pad(self.num_dense_columns as int) + col as int, 1, 64); lemma_div_basics(pad(self.num_dense_columns as int) + col as int); }')
+    u.fn('src/sparse_matrix.rs', 'select_mask', impl=IMPL, ret='r', requires=['bit < 64'], ensures=['r == 1u64 << (bit as u64)'])
+    u.fn('src/sparse_matrix.rs', 'clear_bit', impl=IMPL, ret='r', requires=['bit < 64'], ensures=['*final(word) == *old(word) & !(1u64 << (bit as u64))'])
+    u.fn('src/sparse_matrix.rs', 'set_bit', impl=IMPL, ret='r', requires=['bit < 64'], ensures=['*final(word) == *old(word) | (1u64 << (bit as u64))'])
+
+
 def build():
     u = VUnit('V-SPARSE')
     u.raw(common.PRELUDE)
@@ -123,39 +158,13 @@ impl SparseBinaryVec {
     u.struct('src/sparse_matrix.rs', 'SparseBinaryMatrix', subst=[('    #[cfg(debug_assertions)]\n    debug_indexed_column_valid: Vec<bool>,\n', '')])
     u.raw('} // verus!')
     u.raw(v_dense.SPEC.split('// the abstract matrix: cell (i, j) of a dense matrix')[0] + '\n} // verus!\n')
-    u.raw(r'''verus! {
-pub proof fn lemma_set_bit(w: u64, b: u64, c: u64)
-    requires b < 64, c < 64,
-    ensures bit_of(w | (1u64 << b), c as int) == (if c == b { true } else { bit_of(w, c as int) }),
-            bit_of(w & !(1u64 << b), c as int) == (if c == b { false } else { bit_of(w, c as int) }),
-{
-    assert((w | (1u64 << b)) & (1u64 << c) != 0 <==> (c == b || w & (1u64 << c) != 0)) by (bit_vector) requires b < 64, c < 64;
-    assert((w & !(1u64 << b)) & (1u64 << c) != 0 <==> (c != b && w & (1u64 << c) != 0)) by (bit_vector) requires b < 64, c < 64;
-}
-pub proof fn lemma_zero_bit(c: u64)
-    requires c < 64,
-    ensures !bit_of(0u64, c as int),
-{ assert(0u64 & (1u64 << c) == 0) by (bit_vector); }
-}''', label='bit lemmas')
+    u.raw(BIT_LEMMAS, label='bit lemmas')
     u.raw(SPEC)
     u.trust('SparseBinaryVec / ImmutableListMap are opaque here (remove and get external, no contract): the sparse rows and the column index are NOT under contract')
     u.raw('verus! {')
     u.raw('impl SparseBinaryMatrix {')
     IMPL = 'impl SparseBinaryMatrix'
-    u.fn('src/sparse_matrix.rs', 'row_word_width', impl=IMPL, ret='r', requires=['self.num_dense_columns < 65536'], ensures=['r as int == rww(self.num_dense_columns as int)'])
-    u.fn('src/sparse_matrix.rs', 'left_padding_bits', impl=IMPL, ret='r', requires=['self.num_dense_columns < 65536'], ensures=['r as int == pad(self.num_dense_columns as int)', 'r < 64'])
-    u.fn('src/sparse_matrix.rs', 'word_offset', impl=IMPL, ret='r', requires=['self.num_dense_columns < 65536', 'bit < 65536'], ensures=['r as int == (pad(self.num_dense_columns as int) + bit as int) / 64'])
-    u.fn('src/sparse_matrix.rs', 'bit_position', impl=IMPL, ret='r',
-         requires=['1 <= self.num_dense_columns', 'self.num_dense_columns < 65536', 'col < 65536', 'row < 16777216'],
-         ensures=['r.0 as int == row as int * rww(self.num_dense_columns as int) + (pad(self.num_dense_columns as int) + col as int) / 64',
-                  'r.1 as int == (pad(self.num_dense_columns as int) + col as int) % 64', 'r.1 < 64'],
-         prepend='proof { lemma_pad(self.num_dense_columns as int); lemma_ceil_div_exact(self.num_dense_columns as int, 64);'
-                 ' assert(rww(self.num_dense_columns as int) <= 1024) by { lemma_div_is_ordered(self.num_dense_columns as int + 63, 65535int + 63, 64); }'
-                 ' assert(0 <= row as int * rww(self.num_dense_columns as int) <= 16777216 * 1024) by (nonlinear_arith) requires 0 <= row as int <= 16777216, 0 <= rww(self.num_dense_columns as int) <= 1024;'
-                 ' lemma_div_pos_is_pos(pad(self.num_dense_columns as int) + col as int, 64); lemma_div_is_ordered_by_denominator(pad(self.num_dense_columns as int) + col as int, 1, 64); lemma_div_basics(pad(self.num_dense_columns as int) + col as int); }')
-    u.fn('src/sparse_matrix.rs', 'select_mask', impl=IMPL, ret='r', requires=['bit < 64'], ensures=['r == 1u64 << (bit as u64)'])
-    u.fn('src/sparse_matrix.rs', 'clear_bit', impl=IMPL, ret='r', requires=['bit < 64'], ensures=['*final(word) == *old(word) & !(1u64 << (bit as u64))'])
-    u.fn('src/sparse_matrix.rs', 'set_bit', impl=IMPL, ret='r', requires=['bit < 64'], ensures=['*final(word) == *old(word) | (1u64 << (bit as u64))'])
+    helpers(u)
     N0 = 'old(self).num_dense_columns as int'
     u.fn('src/sparse_matrix.rs', 'hint_column_dense_and_frozen', impl='impl BinaryMatrix for SparseBinaryMatrix', ret='r', rules=['A1'],
          requires=['sm_wf(*old(self))', 'old(self).height >= 1', 'old(self).num_dense_columns < old(self).width', 'i as int == old(self).width - old(self).num_dense_columns - 1',
